@@ -1195,6 +1195,114 @@ func ruleRegister(c *Ctx, rule string) {
 		}
 		return false
 	}
+	// keySig: the key as a function of the parameters of g — a bare parameter ("", [i]), or K(p_i, p_j, …) for a repo function K
+	keySig := func(g *ssa.Function, key ssa.Value) (string, []int, bool) {
+		paramIdx := func(v ssa.Value) int {
+			pa, isP := p.Resolve(v).(*ssa.Parameter)
+			if !isP {
+				return -1
+			}
+			for i, q := range g.Params {
+				if q == pa {
+					return i
+				}
+			}
+			return -1
+		}
+		if i := paramIdx(key); i >= 0 {
+			return "", []int{i}, true
+		}
+		kc, isCall := p.Resolve(key).(*ssa.Call)
+		if !isCall || kc.Call.StaticCallee() == nil || !p.InRepo(kc.Call.StaticCallee()) {
+			return "", nil, false
+		}
+		var idxs []int
+		for _, a := range kc.Call.Args {
+			i := paramIdx(a)
+			if i < 0 {
+				return "", nil, false
+			}
+			idxs = append(idxs, i)
+		}
+		return eng.CalleeName(&kc.Call), idxs, true
+	}
+	// absentCutSig: block b of F is only reached over the "absent" answer of a check helper that looks the map up under
+	// K(args…) of its own parameters, called with exactly keyArgs
+	absentCutSig := func(F *ssa.Function, b *ssa.BasicBlock, K string, keyArgs []ssa.Value) bool {
+		for _, cl := range eng.Calls(F) {
+			call, ok := cl.(*ssa.Call)
+			if !ok {
+				continue
+			}
+			h := call.Call.StaticCallee()
+			if h == nil || !p.InRepo(h) || len(h.Blocks) == 0 || h.Signature.Results().Len() != 1 {
+				continue
+			}
+			for _, bb := range h.Blocks {
+				for _, ins := range bb.Instrs {
+					lk, ok := ins.(*ssa.Lookup)
+					if !ok || !lk.CommaOk || !isField(lk.X) {
+						continue
+					}
+					k2, idx2, ok2 := keySig(h, lk.Index)
+					if !ok2 || k2 != K || len(idx2) != len(keyArgs) {
+						continue
+					}
+					same := true
+					for k, i := range idx2 {
+						if i >= len(call.Call.Args) || !p.SameValue(call.Call.Args[i], keyArgs[k]) {
+							same = false
+						}
+					}
+					if !same {
+						continue
+					}
+					var okV ssa.Value
+					for _, r := range *lk.Referrers() {
+						if ex, isEx := r.(*ssa.Extract); isEx && ex.Index == 1 {
+							okV = ex
+						}
+					}
+					if okV == nil {
+						continue
+					}
+					present, absentH := eng.BoolEdges(h, func(v ssa.Value) bool { return v == okV })
+					isErr := errorResultIndex(h.Signature) == 0
+					isBool := h.Signature.Results().At(0).Type().String() == "bool"
+					faithful := len(present) > 0 && (isErr || isBool)
+					for _, r := range eng.Returns(h) {
+						rv := retVal(p, r)
+						if isErr {
+							// "no error" only when absent; an error when present
+							if eng.Cut(h, r.Block(), present) && !p.DefinitelyNonNil(rv, r) {
+								faithful = false
+							}
+							if !eng.Cut(h, r.Block(), present) && !eng.Cut(h, r.Block(), absentH) {
+								faithful = false
+							}
+						} else if isBool {
+							if ex, isEx := p.Resolve(rv).(*ssa.Extract); !isEx || ex != okV {
+								faithful = false
+							}
+						}
+					}
+					if !faithful {
+						continue
+					}
+					var absent eng.EdgeSet
+					if isErr {
+						absent, _ = p.NilEdges(F, func(v ssa.Value) bool { return v == ssa.Value(call) })
+					} else {
+						_, absent = eng.BoolEdges(F, func(v ssa.Value) bool { return v == ssa.Value(call) })
+					}
+					if len(absent) > 0 && eng.Cut(F, b, absent) {
+						return true
+					}
+				}
+			}
+		}
+		return false
+	}
 	n := 0
 	for _, f := range p.Fns {
 		if p.IsTestSupport(f) {
@@ -1208,6 +1316,28 @@ func ruleRegister(c *Ctx, rule string) {
 				}
 				n++
 				good := absentCut(f, b, mu.Key)
+				if !good {
+					// register(kind, addr, fn) / check(kind, addr): the key is the same function of the same arguments
+					if K, idxs, okS := keySig(f, mu.Key); okS && K != "" {
+						sites := p.CallSitesOf(f)
+						good = len(sites) > 0
+						for _, s := range sites {
+							args := s.Ins.(ssa.CallInstruction).Common().Args
+							var ka []ssa.Value
+							for _, i := range idxs {
+								if i < len(args) {
+									ka = append(ka, args[i])
+								}
+							}
+							if len(ka) != len(idxs) || !absentCutSig(s.Fn, s.Ins.Block(), K, ka) {
+								good = false
+							}
+						}
+						if good {
+							n += len(sites) - 1 // one insertion per call site of the helper
+						}
+					}
+				}
 				if !good {
 					// the test may sit in the callers of a small register(key, fn) helper
 					if pa, isP := mu.Key.(*ssa.Parameter); isP {
